@@ -63,6 +63,12 @@ def cases(ctx):
                     e[2] = 'dup'
         else:
             d2 = rename(gen.random_dfa(rng, 5, Sig), lambda q: 'r_' + q)
+        if rng.random() < 0.2:          # the empty string is a legal (falsy) state name
+            q = rng.choice(d2['Q'] if r >= 0.35 or rng.random() < 0.7 else d1['Q'])
+            if q in d2['Q']:
+                d2 = rename(d2, lambda x: '' if x == q else x)
+            else:
+                d1 = rename(d1, lambda x: '' if x == q else x)
         if not thorough or ctx.mine(i):
             yield {'D1': d1, 'D2': d2, 'sched': [rng.randint(0, 6) for _ in range(8)]}
 
